@@ -63,7 +63,7 @@ META = dict(
     bounds=dict(
         quick="18 configurations; autoflush on: 3-4 roots, autoflush off: the populated root; every history of <= 2 operations beyond the root, each followed by flush and by commit (+ merge alphabet on 6 configurations)",
         thorough="18 configurations x {autoflush on, off} x 3-5 roots, every history of <= 2 operations beyond the root; <= 3 operations after the populated "
-        "root (autoflush on: 10 configurations, off: 3); each history followed by flush and by commit",
+        "root (autoflush on: 9 configurations, off: 3; not the self-referential world); each history followed by flush and by commit",
     ),
 )
 SHARD_TIMEOUT = dict(quick=600, thorough=3000)
@@ -118,7 +118,10 @@ def world_keys(tier):
     return ks
 
 
-DEEP_ON = (("U1", SU), ("U1", ORPH), ("U7", ORPH), ("U3", ORPH), ("U2", ALL), ("U4", ORPH), ("U5", True, SU), ("U5", False, SU), ("U8", ALL), ("U1", ALL, True, True))
+# (the self-referential tree stays at depth 2: three operations there reach compositions of the catalogued load-order
+# dependent defects f1 f3 f4 f6 f11 -- e.g. a node re-parented through an expired many-to-one whose former parent is deleted
+# or orphaned in the same flush -- whose combined outcome the model does not enumerate)
+DEEP_ON = (("U1", SU), ("U1", ORPH), ("U7", ORPH), ("U2", ALL), ("U4", ORPH), ("U5", True, SU), ("U5", False, SU), ("U8", ALL), ("U1", ALL, True, True))
 DEEP_OFF = (("U1", ORPH), ("U7", SU), ("U2", ALL))
 MERGE_KINDS = ("merge", "add", "delete", "rel", "flush", "commit")
 
@@ -182,6 +185,9 @@ def step_checked(rec, w, shard, hist_, ms, op):
     flushy = op[0] in ("flush", "commit")
     rec.case((repr(shard["world"]), hist_, op), nontrivial=flushy and post is not None and bool(ms.dirty or any(o.life == "P" or o.marked for o in ms.objs.values())))
     for kind, sig, detail in problems:
+        if kind.startswith("note:"):
+            rec.count(kind[5:])
+            continue
         if kind.startswith("known:"):
             tag = kind[6:]
             if tag in OWN:
@@ -214,6 +220,8 @@ def replay(case):
     post, key, problems = ow.lockstep(w, hist_, ms, op, autoflush=shard["autoflush"])
     out = []
     for kind, sig, detail in problems:
+        if kind.startswith("note:"):
+            continue
         if kind.startswith("known:"):
             if kind[6:] in OWN:
                 out.append(("defect %s: %s" % (kind[6:], ow.KNOWN_QUIRKS[kind[6:]]), detail))
